@@ -381,6 +381,13 @@ def run(ctx):
         if not oks:
             handed = [(bb, t) for bb, t in EB.calls() if bb in live and t['dst']['l'] in EB.ret_sources() and not t['dst'].get('p')
                       and not any(n.endswith('FromResidual::from_residual') for n in callee_names(t))]
+            if handed and any('thread::local::LocalKey::<' in n_ for n_ in callee_names(handed[0][1])):
+                # a buffer kept in a thread-local is as good as one of this call if the call empties it before it writes into it
+                from .c20 import thread_local_buffer_sites as _tls
+                found = list(_tls(ctx, only_parent=q))
+                if found and not any(bad_ for _q, _n, _B, _s, bad_ in found):
+                    ctx.ok('C01.1-own-buffer', q.rsplit('::', 1)[1], 'works in a thread-local buffer that it empties before it writes into it', ctx.where(EB, handed[0][0]))
+                    continue
             if handed:
                 ctx.bad('C01.1-own-buffer', q.rsplit('::', 1)[1], 'the bytes %s returns are the result of %s, not the contents of a buffer created by this call: whatever an earlier call left in a buffer that outlives the call '
                         'ends up in front of this encoding' % (q.rsplit('::', 1)[1], callee_of(handed[0][1])[0]), ctx.where(EB, handed[0][0]), key='PROV:%s:result-not-from-own-buffer' % q)
